@@ -193,8 +193,8 @@ class Check(PropertyCheck):
             "mapped) / 5 IPv6 notations, crossed with the 4 option pairs and 9 proxy modes (quick: rotating subset of modes "
             "per address, both local and non-local always present); then random addresses inside random intervals and "
             "mutated/raw peer texts. distinct = (peer text, mode, options); all are non-trivial.")
-    budget = {"quick": 20000, "thorough": 500000}
-    time_budget = {"quick": 20, "thorough": 600}
+    budget = {"quick": 20000, "thorough": 400000}
+    time_budget = {"quick": 20, "thorough": 480}
     fingerprints = ["mitmproxy.addons.block:Block.client_connected",
                     "mitmproxy.proxy.server:ConnectionHandler.handle_client",
                     "mitmproxy.proxy.mode_servers:ProxyConnectionHandler.handle_hook",
